@@ -81,6 +81,7 @@ func runCrash(c *evid.Ctx, id string, cfg crashCfg) {
 	if id == "C13" {
 		c13Pinning(c)
 		c13FailedCreate(c)
+		c13Concurrent(c)
 	}
 	if id == "C04" {
 		c04FailedTruncations(c)
